@@ -98,6 +98,9 @@ func c06Scenarios(tier string) []*Scenario {
 	B := func(conc uint, wait time.Duration) Spec { return Spec{Kind: KBulkhead, Conc: conc, BWait: wait} }
 	hold := func(d time.Duration) []Out { return []Out{{V: 1, Dur: d}} }
 
+	// maxConcurrency 0 admits nothing
+	add("zero", []Spec{B(0, 0)}, 0, []ExeSpec{{Script: hold(10)}, {Script: hold(10), StartAt: 20}}, true)
+	add("zero-wait", []Spec{B(0, W)}, 0, []ExeSpec{{Script: hold(10)}}, true)
 	// two executions, no waiting
 	add("two", []Spec{B(1, 0)}, 0, []ExeSpec{{Script: hold(10)}, {Script: hold(10)}}, true)
 	add("two-err", []Spec{B(1, 0)}, 0, []ExeSpec{{Script: []Out{{Err: E1, Dur: 10}}}, {Script: hold(10)}}, true)
@@ -192,7 +195,7 @@ func init() {
 		Technique: "stateless schedule exploration (preemption-bounded DFS) of concurrent executions and standalone callers through one real bulkhead under a virtual clock",
 		Rule: "one execution = one complete schedule of 2-4 harness threads (sync/async executions, cancellers, standalone API callers) plus the library's own threads; the permit release, the wait timer and the cancellation " +
 			"are placed at the same virtual instant so every order is explored; distinct = distinct observation logs",
-		Assume: []string{"sequentially consistent interleavings at synchronisation granularity", "maxConcurrency >= 1 (an unbuffered semaphore is outside the alphabet)",
+		Assume: []string{"sequentially consistent interleavings at synchronisation granularity", "maxConcurrency 0 (nothing is admitted), 1 and 2",
 			"instrumentation by source rewriting preserves semantics (DESIGN.md §2)"},
 		Units: func(tier string) []Unit {
 			var us []Unit
